@@ -541,7 +541,11 @@ def _special_cases():
     for depth in (1, 3, 40):
         out.append({"kind": "special", "what": "vmdk-parent-chain-cycle", "depth": depth})
     for tgt in ("pax-header", "first-header", "own-header"):
-        out.append({"kind": "special", "what": "vmtar-pax-size-then-visor-offset-backwards", "target": tgt})
+        for typ in ("x", "X", "g+x", "g+X"):
+            out.append({"kind": "special", "what": "vmtar-pax-size-then-visor-offset-backwards", "target": tgt, "typ": typ})
+    # snapshot trees with a GUID listed twice (first / last entry closing a loop), besides the plain cycles above
+    for variant in ("first-closes-loop", "last-closes-loop", "both-loop", "duplicate-top"):
+        out.append({"kind": "special", "what": "prl-duplicate-shot-guid", "variant": variant})
     # text formats: lines built from long runs of one special character, well-formed and broken (unterminated quote, too many
     # fields): parsing time is linear in the input (the inputs are a few KiB: a watchdog of seconds decides)
     for fmt in ("vmdk-extent", "vmdk-kv", "vmx", "keystore", "keysafe"):
@@ -576,6 +580,21 @@ def _run_special(case, ctx):
         for k in range(n):
             files[f"x.{k}.hds"] = BH.build_hds([DATA, HOLE, DATA], [2, None, 1], 8, 2, 24, layer=k + 1).tobytes()
         return _execute(ctx, case, None, files, subject, drv_hdd_dir, {}, sum(len(v) for v in files.values()))
+    if what == "prl-duplicate-shot-guid":
+        g = [BH.DEFAULT_TOP] + [f"{{0000000{k}-0000-4000-8000-000000000000}}" for k in range(1, 4)]
+        v = case["variant"]
+        shots = {
+            # top -> B ; B listed twice: B -> top (closes a loop) and B -> null
+            "first-closes-loop": [(g[0], g[1]), (g[1], g[0]), (g[1], BH.NULL_GUID)],
+            "last-closes-loop": [(g[0], g[1]), (g[1], BH.NULL_GUID), (g[1], g[0])],
+            "both-loop": [(g[0], g[1]), (g[1], g[2]), (g[2], g[1]), (g[1], g[2])],
+            "duplicate-top": [(g[0], g[1]), (g[0], g[0]), (g[1], BH.NULL_GUID)],
+        }[v]
+        imgs = [(x, "Compressed", f"x.{k}.hds") for k, x in enumerate(g[:3])]
+        files = {"DiskDescriptor.xml": BH.descriptor_xml(24, [(0, 24, imgs)], shots).encode()}
+        for k in range(3):
+            files[f"x.{k}.hds"] = BH.build_hds([DATA, HOLE, DATA], [2, None, 1], 8, 2, 24, layer=k + 1).tobytes()
+        return _execute(ctx, case, None, files, subject, drv_hdd_dir, {}, sum(len(v_) for v_ in files.values()))
     if what in ("hyperv-objtable-cycle", "hyperv-parent-cycle"):
         tree = {"configuration": (BHV.T_NODE, {"a": (BHV.T_INT, 1), "n": (BHV.T_NODE, {"s": (BHV.T_STR, "x")})})}
         how = case.get("how", "")
@@ -803,7 +822,13 @@ def _run_special(case, ctx):
         rec = b"size=0\n"
         body = b"%d %s" % (len(rec) + 3, rec)
         body = b"%d %s" % (len(b"%d %s" % (len(rec) + 2, rec)), rec) if len(body) != int(body.split(b" ")[0]) else body
-        pax = BT.hdr("PaxHeader/x", len(body), typ=b"x", visor=False) + BT.pad512(body)
+        typ = case.get("typ", "x")
+        pax = BT.hdr("PaxHeader/x", len(body), typ=typ[-1].encode(), visor=False) + BT.pad512(body)
+        if typ.startswith("g+"):
+            # the size record comes from a global header, the extended header in front of the member carries another record
+            other = b"19 comment=verif-x\n"
+            pax = BT.hdr("PaxHeader/g", len(body), typ=b"g", visor=False) + BT.pad512(body) + \
+                BT.hdr("PaxHeader/x", len(other), typ=typ[-1].encode(), visor=False) + BT.pad512(other)
         first = BT.hdr("d/", 0, typ=b"5", mode=0o755)
         target = {"pax-header": 512, "first-header": 0x200 * 0 + 512 * 0 + 512, "own-header": 512 + len(pax)}[case["target"]]
         if case["target"] == "first-header":
